@@ -511,9 +511,18 @@ pub fn judge(case: &Case, o: &Outcome) -> Vec<(String, String)> {
                     ));
                 }
             } else if w == "Remote(Internal)" {
-                // a failure of the transport adapter: h3 may (and does) close with H3_INTERNAL_ERROR; not demanded
+                // a failure of the transport adapter: h3 may (and does) close with H3_INTERNAL_ERROR; that is not
+                // demanded, but the connection's outcome must not depend on WHO met the error: the close calls
+                // are those of a driver that meets the same error itself
                 if !o.close_calls.is_empty() && o.close_calls != [0x102] {
                     out.push((format!("C05:{role}:close-calls-do-not-match-the-winner:wrong-code"), format!("{ctx}: winner {w}; close calls {:x?}", o.close_calls)));
+                }
+                let base = internal_error_baseline(case.me);
+                if o.close_calls != base {
+                    out.push((
+                        format!("C05:{role}:outcome-depends-on-who-met-the-error"),
+                        format!("{ctx}: winner {w}; close calls {:x?}, but {:x?} when the driver meets the same error itself", o.close_calls, base),
+                    ));
                 }
             } else if !o.close_calls.is_empty() {
                 out.push((format!("C05:{role}:closed-although-the-error-came-from-the-transport"), format!("{ctx}: winner {w}; close calls {:x?}", o.close_calls)));
@@ -521,6 +530,58 @@ pub fn judge(case: &Case, o: &Outcome) -> Vec<(String, String)> {
         }
     }
     out
+}
+
+/// What the transport is asked to do when the DRIVER itself meets the adapter-internal error (nobody else involved):
+/// the reference point for the case where a request handle met it first - the connection's outcome must not depend on
+/// who noticed the error. One deterministic single-task run per role.
+fn internal_error_baseline(me: Endpoint) -> Vec<u64> {
+    static BASE: std::sync::OnceLock<[Vec<u64>; 2]> = std::sync::OnceLock::new();
+    let b = BASE.get_or_init(|| {
+        let run = |server: bool| -> Vec<u64> {
+            let net = Net::new(NetCfg::default());
+            let mut ex = simnet::Exec::new();
+            let side = if server { SERVER } else { CLIENT };
+            let net2 = net.clone();
+            ex.spawn("driver", async move {
+                if server {
+                    let mut b = h3::server::builder();
+                    b.send_grease(false);
+                    let Ok(mut conn) = b.build::<SimConn, Bytes>(SimConn::new(&net2, SERVER)).await else { return };
+                    for _ in 0..3 {
+                        let r = conn.accept().await;
+                        drop(r);
+                    }
+                    // (dropping the connection object is a further close of its own; it is kept)
+                    std::future::pending::<()>().await;
+                    drop(conn);
+                } else {
+                    let mut b = h3::client::builder();
+                    b.send_grease(false);
+                    let Ok((mut conn, sr)) = b.build::<SimConn, simnet::SimOpener, Bytes>(SimConn::new(&net2, CLIENT)).await else { return };
+                    for _ in 0..3 {
+                        let _ = std::future::poll_fn(|cx| conn.poll_close(cx)).await;
+                    }
+                    std::future::pending::<()>().await;
+                    drop((conn, sr));
+                }
+            });
+            let net3 = net.clone();
+            ex.spawn("script", async move {
+                let (peer, ctrl) = if server { (CLIENT, CLIENT_CTRL) } else { (SERVER, SERVER_CTRL) };
+                net3.raw_open(ctrl);
+                net3.raw_write(peer, ctrl, &control_preamble(&[]));
+                for _ in 0..4 {
+                    simnet::exec::yield_now().await;
+                }
+                net3.inject_conn_err(side, simnet::ConnErr::Internal);
+            });
+            let _ = ex.run(4000, |_| {});
+            net.close_calls(side).iter().map(|c| c.0).collect()
+        };
+        [run(true), run(false)]
+    });
+    if me == Endpoint::Server { b[0].clone() } else { b[1].clone() }
 }
 
 fn kind_from(s: &str) -> Kind {
@@ -576,7 +637,7 @@ pub fn run(args: &Args) -> i32 {
     let (b2, b3) = if thorough { (usize::MAX, 5) } else { (5, 3) };
     let b2s = if b2 == usize::MAX { "unbounded".to_string() } else { b2.to_string() };
     rep.rule = format!(
-        "actors on real OS threads under a baton scheduler: one driver thread (server: accept(); client: poll_close(); parks while pending, woken through h3's AtomicWaker) and 1..3 stream threads, each performing the API calls that raise one connection error (SETTINGS on a request stream -> H3_FRAME_UNEXPECTED; frame cut off by FIN -> H3_FRAME_ERROR; undecodable trailers -> QPACK_DECOMPRESSION_FAILED; peer application close 0x1234 surfacing on a read; a connection timeout / an internal adapter error that the transport reports on a read of this stream only; a driver that calls shutdown() after the peer went away; client: last SendRequest dropped -> H3_NO_ERROR), every subset of kinds, with and without an error the driver detects itself (peer control stream finished). Pre-emption points = every ConnectionState accessor (get_conn_error, set_conn_error, waker, set_closing, is_closing, settings, set_settings) via the verif-hooks callback. ALL interleavings for 2 threads; pre-emption bound {b2s} for 3 threads and {b3} for 4. After each run: later calls (recv_data, send_data, finish) on every handle, the driver is called three times. Oracle: one distinct connection error over all reports; close() exactly once with its code iff locally detected; driver never parked forever. states = distinct (schedule trace, observation) fingerprints; non-trivial = executions with at least one pre-emption."
+        "actors on real OS threads under a baton scheduler: one driver thread (server: accept(); client: poll_close(); parks while pending, woken through h3's AtomicWaker) and 1..3 stream threads, each performing the API calls that raise one connection error (SETTINGS on a request stream -> H3_FRAME_UNEXPECTED; frame cut off by FIN -> H3_FRAME_ERROR; undecodable trailers -> QPACK_DECOMPRESSION_FAILED; peer application close 0x1234 surfacing on a read; a connection timeout / an internal adapter error that the transport reports on a read of this stream only; a driver that calls shutdown() after the peer went away; client: last SendRequest dropped -> H3_NO_ERROR), every subset of kinds, with and without an error the driver detects itself (peer control stream finished). Pre-emption points = every ConnectionState accessor (get_conn_error, set_conn_error, waker, set_closing, is_closing, settings, set_settings) via the verif-hooks callback. ALL interleavings for 2 threads; pre-emption bound {b2s} for 3 threads and {b3} for 4. After each run: later calls (recv_data, send_data, finish) on every handle, the driver is called three times. Oracle: one distinct connection error over all reports; for the adapter-internal error the close calls equal those of a run in which the driver meets that error itself; close() exactly once with its code iff locally detected; driver never parked forever. states = distinct (schedule trace, observation) fingerprints; non-trivial = executions with at least one pre-emption."
     );
     rep.assumptions = vec![
         "OnceLock and AtomicWaker::{register,wake} are atomic operations (their documented contracts); interleavings are sequentially consistent (Relaxed vs SeqCst on the closing flag is not modelled)".into(),
